@@ -40,7 +40,7 @@ SIG_CLASSES = ["length", "padded", "zero-at-48", "flag-grid", "non-subgroup", "t
 
 def required_classes(tier):
     out = ["key:" + c for c in KEY_CLASSES] + ["sig:" + c for c in SIG_CLASSES]
-    out += ["typed-variants", "sentinels:before", "sentinels:after", "soak:distinct-keys", "key:valid-keys-that-cancel", "list-shapes", "key:valid-plus-small-order", "key:identity-among-honest", "key:cancelling-set", "ep:KeyValidate", "ep:Verify", "ep:PopVerify", "ep:AggregateVerify", "ep:FastAggregateVerify", "valid-call-reaching-pairing", "list-position"]
+    out += ["soak:valid-keys", "typed-variants", "sentinels:before", "sentinels:after", "soak:distinct-keys", "key:valid-keys-that-cancel", "list-shapes", "key:valid-plus-small-order", "key:identity-among-honest", "key:cancelling-set", "ep:KeyValidate", "ep:Verify", "ep:PopVerify", "ep:AggregateVerify", "ep:FastAggregateVerify", "valid-call-reaching-pairing", "list-position"]
     return out
 
 
@@ -318,6 +318,30 @@ def run(rec):
             if j % 3 == 0:
                 b[0] = (b[0] & 0x1F) | 0x80
             call(S.KeyValidate, bytes(b))
+        if rec.shard % 8 == 5 or not quick:
+            import py_ecc.bls.g2_primitives as gp_
+            from .common import soak_size
+            nvalid = soak_size(["py_ecc.bls.g2_primitives", "py_ecc.bls.ciphersuites", "py_ecc.bls.point_compression"])
+            rec.case("soak:valid-keys", None, nontrivial=False)
+            Pt_ = E1.mul(G1m, soak_rng.randrange(1, R))
+            for j in range(nvalid):
+                Pt_ = E1.add(Pt_, G1m)
+                kb_ = Z.enc_g1(Pt_)
+                if j % 64 == 0:
+                    call(S.KeyValidate, kb_)
+                else:
+                    call(gp_.pubkey_to_G1, kb_)
+            rec.event("soak:valid-keys:distinct-arguments", nvalid)
+            # keys never seen before, right after the tables have overflowed: a non-subgroup key and a valid one
+            Tq = CG.torsion_point(E1, order1, 11, rng)
+            fresh_bad = Z.enc_g1(E1.add(E1.mul(G1m, rng.randrange(1, R)), Tq))
+            call(S.KeyValidate, fresh_bad)
+            call(S.Verify, fresh_bad, msg, sig)
+            call(suites["basic"].AggregateVerify, [fresh_bad, pk2], [msg, msg2], agg2)
+            sk_f = rng.randrange(1, R)
+            call(S.Verify, bmon.register_key(sk_f), msg, bmon.m_sign(suite, sk_f, msg))
+        else:
+            rec.case("soak:valid-keys", None, nontrivial=False)
         sentinels("after")
         # the existing suite's fixed malformed strings (trivial by the rule, still exercised)
         for k in (b"\x11" * 48, b"\x40" + b"\x00" * 47):
